@@ -21,6 +21,29 @@ type Subscription { w(p: Int, s: String, u: Int): Ev }
 type Ev { f0: Int f1: Int f2: Int f3: Int k: Int }
 `
 
+// the schema of the (frag) histories: the subscribed field is reached through a fragment on an interface
+// that Query implements too, with another (covariant) type for the field
+const c19FragSDL = `
+interface EvI { f0: Int f1: Int f2: Int f3: Int k: Int }
+interface W { w(p: Int, s: String, u: Int): EvI }
+type Ev implements EvI { f0: Int f1: Int f2: Int f3: Int k: Int }
+type Ev2 implements EvI { f0: Int f1: Int f2: Int f3: Int k: Int }
+type Query implements W { x: Int w(p: Int, s: String, u: Int): Ev2 }
+type Subscription implements W { w(p: Int, s: String, u: Int): Ev }
+`
+
+// c19FragQuery answers Query.w with a value of type Ev2
+type c19FragQuery struct{}
+type c19Ev2 struct{}
+
+func (q *c19FragQuery) Resolve(f *ggql.Field, _ map[string]interface{}) (interface{}, error) {
+	if f.Name == "w" {
+		return &c19Ev2{}, nil
+	}
+	return 0, nil
+}
+func (e *c19Ev2) Resolve(f *ggql.Field, _ map[string]interface{}) (interface{}, error) { return 0, nil }
+
 type regLog struct {
 	mu    sync.Mutex
 	del   []sx.S
@@ -190,6 +213,7 @@ func (s *subRootObj) Resolve(f *ggql.Field, args map[string]interface{}) (interf
 type c19Schema struct {
 	Query        *struct{}
 	Subscription *subRootObj
+	FQ           *c19FragQuery
 }
 
 func (s *c19Schema) Resolve(f *ggql.Field, _ map[string]interface{}) (interface{}, error) {
@@ -197,6 +221,9 @@ func (s *c19Schema) Resolve(f *ggql.Field, _ map[string]interface{}) (interface{
 	case "subscription":
 		return s.Subscription, nil
 	case "query":
+		if s.FQ != nil {
+			return s.FQ, nil
+		}
 		return s.Query, nil
 	}
 	return nil, nil
@@ -210,8 +237,20 @@ func c19Exec(input sx.S) (obs sx.S) {
 	}()
 	log := &regLog{}
 	sro := &subRootObj{log: log}
-	root := ggql.NewRoot(&c19Schema{Subscription: sro})
-	if err := root.ParseString(c19SDL); err != nil {
+	frag := false
+	for _, o := range sx.List(input)[1:] {
+		if sx.Head(o) == "frag" {
+			frag = true
+		}
+	}
+	sch := &c19Schema{Subscription: sro}
+	sdl := c19SDL
+	if frag {
+		sch.FQ = &c19FragQuery{}
+		sdl = c19FragSDL
+	}
+	root := ggql.NewRoot(sch)
+	if err := root.ParseString(sdl); err != nil {
 		return sx.L("schema-error", sx.Hex(err.Error()))
 	}
 	outs := []sx.S{}
@@ -229,9 +268,32 @@ func c19Exec(input sx.S) (obs sx.S) {
 			sro.groups = map[int]*gsub{}
 			c19Share = true
 			defer func() { c19Share = false }()
+		case "frag":
 		case "sub":
 			var res map[string]interface{}
-			if reuse {
+			if frag {
+				// one parsed document holds the subscription and a query that share a fragment on the
+				// interface W; the query is resolved on the same executable right after the subscription
+				text, vars := subRequestFrag(ol[1:])
+				exe := parsed[text]
+				if exe == nil {
+					var err error
+					if exe, err = root.ParseExecutableString(text); err != nil {
+						outs = append(outs, sx.L("rsub-unexpected", sx.Hex(err.Error())))
+						continue
+					}
+					parsed[text] = exe
+				}
+				res = map[string]interface{}{}
+				if data, err := root.ResolveExecutable(exe, "S", vars); err != nil {
+					res["errors"] = err.Error()
+				} else if data != nil {
+					res["data"] = data
+				}
+				if _, err := root.ResolveExecutable(exe, "Q", vars); err != nil {
+					res["errors"] = "query: " + err.Error()
+				}
+			} else if reuse {
 				text, vars := subRequestVars(ol[1:])
 				exe := parsed[text]
 				if exe == nil {
@@ -352,6 +414,33 @@ func subRequestVars(subs []sx.S) (string, map[string]interface{}) {
 	return "subscription(" + head.String() + ") {" + body.String() + " }", vars
 }
 
+// subRequestFrag: the subscription and a query over one fragment on W; the subscriber's selection set
+// stands inside "... on Ev", the type of the subscribed field
+func subRequestFrag(subs []sx.S) (string, map[string]interface{}) {
+	var head, body strings.Builder
+	vars := map[string]interface{}{}
+	for i, s := range subs {
+		sl := sx.List(s)
+		sched := ""
+		for _, x := range sx.List(sl[4]) {
+			sched += x.(string)
+		}
+		if i > 0 {
+			head.WriteString(", ")
+		}
+		fmt.Fprintf(&head, "$p%d: Int, $s%d: String, $u%d: Int", i, i, i)
+		vars[fmt.Sprintf("p%d", i)] = sx.Int(sl[2])
+		vars[fmt.Sprintf("s%d", i)] = sched
+		vars[fmt.Sprintf("u%d", i)] = sx.Int(sl[1])
+		fmt.Fprintf(&body, " a%d: w(p: $p%d, s: $s%d, u: $u%d) { ... on Ev {", i, i, i, i)
+		for _, f := range sx.List(sl[3]) {
+			fmt.Fprintf(&body, " f%d", sx.Int(f))
+		}
+		body.WriteString(" } }")
+	}
+	return "fragment F on W {" + body.String() + " } query Q(" + head.String() + ") { ...F } subscription S(" + head.String() + ") { ...F }", vars
+}
+
 // registryOrder reads the live registry through the verif accessor (uids in registry order).
 func registryOrder(root *ggql.Root) []int {
 	var out []int
@@ -450,6 +539,10 @@ func c19Gen(r *rand.Rand, tier string) []Case {
 		if i%4 >= 2 {
 			ops = append(ops, sx.L("reuse"))
 		}
+		if i%8 == 3 {
+			// the subscribed field is reached through a fragment a query of the same document uses too
+			ops = append(ops, sx.L("frag"))
+		}
 		if i%8 == 1 || i%8 == 6 {
 			// subscribers of one pattern are one Go value (a connection subscribing several times)
 			ops = append(ops, sx.L("share"))
@@ -495,6 +588,8 @@ func c19Tags(ops []sx.S, kind string) []string {
 			reuse = true
 		case "share":
 			tags = append(tags, "one-subscriber-behind-several-subscriptions")
+		case "frag":
+			tags = append(tags, "subscription-and-query-share-a-fragment")
 		case "sub":
 			sub = true
 			if reuse {
@@ -547,7 +642,7 @@ func c19Valid(input sx.S) bool {
 	for _, o := range sx.List(input)[1:] {
 		ol := sx.List(o)
 		switch sx.Head(o) {
-		case "reuse", "share":
+		case "reuse", "share", "frag":
 			if len(ol) != 1 {
 				return false
 			}
